@@ -131,8 +131,22 @@ impl WriteSource for pr::ExprKind {
             Range(range) => {
                 let mut r = String::new();
                 if let Some(start) = &range.start {
-                    let start = write_within(start.as_ref(), self, opt.clone())?;
-                    r += opt.consume(&start)?;
+                    let mut start_text = write_within(start.as_ref(), self, opt.clone())?;
+                    // the lexer's parameter token takes `.`: `$a..b` would be the one parameter `a..b`
+                    let ends_in_param = match &start.kind {
+                        Param(_) => true,
+                        Unary(pr::UnaryExpr { expr, .. }) => matches!(expr.kind, Param(_)),
+                        _ => false,
+                    };
+                    if ends_in_param && !start_text.ends_with(')') {
+                        start_text = match &start.kind {
+                            Unary(pr::UnaryExpr { op, expr }) => {
+                                format!("{op}({})", write_within(expr.as_ref(), &start.kind, opt.clone())?)
+                            }
+                            _ => format!("({start_text})"),
+                        };
+                    }
+                    r += opt.consume(&start_text)?;
                 }
 
                 r += opt.consume("..")?;
